@@ -142,13 +142,18 @@ func sameFailure(a, b *RunResult, rule string) bool {
 // Minimise shrinks a failing plan with delta debugging while the same rule of
 // the same property still fails: drop chunks of commands, then single
 // commands, then simplify the map order.
-func Minimise(p *Plan, rule string, budget int) (*Plan, int) {
+//
+// keep (optional) is an extra predicate a candidate must satisfy: the runner
+// uses it to keep the classification against the known-findings list
+// unchanged, so that shrinking a new violation cannot slide into a listed
+// finding that happens to fail the same rule (and be suppressed as known).
+func Minimise(p *Plan, rule string, budget int, keep func(*Plan, *RunResult) bool) (*Plan, int) {
 	cur := clonePlan(p)
 	runs := 0
 	try := func(cand *Plan) bool {
 		runs++
 		r, _ := ExecPlan(cand)
-		return sameFailure(nil, r, rule)
+		return sameFailure(nil, r, rule) && (keep == nil || keep(cand, r))
 	}
 	// truncate after the failing step
 	if r, _ := ExecPlan(cur); len(r.Fails) > 0 && r.FailStep+1 < len(cur.Cmds) {
